@@ -235,8 +235,13 @@ def load_known(pid):
 def do_setup():
     import gen_tables
     gen_tables.regenerate()
+    # build the driver and every proof module any check will ask for (≈ 1 min on 16 cores)
+    mods = set(['NetaddrVerif'])
+    import glob
+    for f in glob.glob(os.path.join(VERIF, 'obligations', '*.json')):
+        mods.update(json.load(open(f)).get('modules', []))
     with lean_lock():
-        rc, out = lake(['build', 'NetaddrVerif', 'driver'])
+        rc, out = lake(['build'] + sorted(mods) + ['driver'])
     sys.stdout.write(out[-3000:])
     return 0 if rc == 0 else 2
 
